@@ -174,10 +174,10 @@ func runChildOnce(bin string, spec proto.Spec, timeout time.Duration) (ends []pr
 			class, note = "stall:"+stall, stall
 			if spec.Flavour == "auto" && strings.HasPrefix(stall, "spin") {
 				// in the auto-instrumented build every synchronisation operation is a yield and lock waits are
-				// yields: 20 s of real time without reaching one is a goroutine of Mine computing or spinning
+				// yields: 15 s of CPU time without reaching one is a goroutine of Mine computing or spinning
 				// without synchronisation, which no other goroutine can end
 				class = "hang:no-synchronisation-point-reached"
-				note = "a goroutine of the run made no progress towards any synchronisation operation for 20 s of real time\n" + stderr.String()
+				note = "a goroutine of the run burnt 15 s of CPU without reaching any synchronisation operation (" + stall + ")\n" + stderr.String()
 				if len(note) > 6000 {
 					note = note[:6000]
 				}
